@@ -14,10 +14,39 @@ import (
 
 	"github.com/specterops/dawgs/cypher/frontend"
 	"github.com/specterops/dawgs/cypher/models/cypher"
+	"github.com/specterops/dawgs/cypher/models/cypher/format"
 	queryNeo4j "github.com/specterops/dawgs/query/neo4j"
 	"github.com/specterops/dawgs/graph"
 	"github.com/specterops/dawgs/query"
 )
+
+// unquoteCypher decodes a quoted Cypher string token (backslash escapes of the openCypher grammar).
+func unquoteCypher(tok string) string {
+	body := tok[1 : len(tok)-1]
+	var b strings.Builder
+	for i := 0; i < len(body); i++ {
+		if body[i] == '\\' && i+1 < len(body) {
+			i++
+			switch body[i] {
+			case 'n':
+				b.WriteByte('\n')
+			case 't':
+				b.WriteByte('\t')
+			case 'r':
+				b.WriteByte('\r')
+			case 'b':
+				b.WriteByte('\b')
+			case 'f':
+				b.WriteByte('\f')
+			default:
+				b.WriteByte(body[i])
+			}
+			continue
+		}
+		b.WriteByte(body[i])
+	}
+	return b.String()
+}
 
 // shape renders the operator tree of an expression, dropping parentheses and flattening nothing.
 func shape(e cypher.Expression) string {
@@ -207,7 +236,104 @@ func TestVerifBoundedBuilder(t *testing.T) {
 			fail("emitted text %q parses as %s, the model is %s", text, got, want)
 		}
 	}
-	res := map[string]any{"name": "builder", "bound": fmt.Sprintf("%d criteria trees of depth <= 2 over And/Or/Xor/Not, 3 comparisons and 3 kind matchers", len(all)), "cases": cases, "exhaustive": true, "failures": failures}
+	// ---- literals keep their type and value through emit -> parse ----
+	literalValues := []any{0, 1, -1, int64(1) << 40, 1.0, 2.0, 1000.0, -3.0, 0.5, 1.25e-7, 1e21, float32(2), "", "x", "it's", "a\\b", "say \"hi\"", true, false}
+	findLiteral := func(q *cypher.RegularQuery) (any, bool) {
+		where := q.SingleQuery.SinglePartQuery.ReadingClauses[0].Match.Where
+		if where == nil || len(where.Expressions) != 1 {
+			return nil, false
+		}
+		e := where.Expressions[0]
+		for {
+			if p, ok := e.(*cypher.Parenthetical); ok {
+				e = p.Expression
+				continue
+			}
+			break
+		}
+		cmp, ok := e.(*cypher.Comparison)
+		if !ok || len(cmp.Partials) != 1 {
+			return nil, false
+		}
+		right := cmp.Partials[0].Right
+		neg := false
+		if u, ok := right.(*cypher.UnaryAddOrSubtractExpression); ok {
+			neg = u.Operator == cypher.OperatorSubtract
+			right = u.Right
+		}
+		if a, ok := right.(*cypher.ArithmeticExpression); ok && len(a.Partials) == 0 {
+			right = a.Left
+		}
+		lit, ok := right.(*cypher.Literal)
+		if !ok {
+			return nil, false
+		}
+		v := lit.Value
+		if neg {
+			switch n := v.(type) {
+			case int64:
+				v = -n
+			case float64:
+				v = -n
+			}
+		}
+		return v, true
+	}
+	for _, v := range literalValues {
+		cases++
+		var operand graph.Criteria = query.Literal(v)
+		if str, isString := v.(string); isString {
+			operand = cypher.NewStringLiteral(str)
+		}
+		model, err := query.NewBuilderWithCriteria(query.Where(cypher.NewComparison(query.NodeProperty("p"), cypher.OperatorEquals, operand)), query.Returning(query.Node())).Build(false)
+		if err != nil {
+			fail("build failed for literal %#v: %v", v, err)
+			continue
+		}
+		text, err := format.RegularQuery(model, false)
+		if err != nil {
+			fail("emit failed for literal %#v: %v", v, err)
+			continue
+		}
+		parsed, err := frontend.ParseCypher(frontend.NewContext(), text)
+		if err != nil {
+			fail("literal %#v is emitted as text that does not parse: %q: %v", v, text, err)
+			continue
+		}
+		got, ok := findLiteral(parsed)
+		if !ok {
+			fail("literal %#v: no literal in the re-parsed %q", v, text)
+			continue
+		}
+		var want any
+		switch n := v.(type) {
+		case int:
+			want = int64(n)
+		case int64:
+			want = n
+		case float32:
+			want = float64(n)
+		case float64:
+			want = n
+		case string:
+			want = "'" + n + "'"
+			if s, isString := got.(string); isString && len(s) >= 2 {
+				// the parser keeps the quoted token; compare the decoded content
+				got = s
+				want = s[:1] + n + s[len(s)-1:]
+				if unq := unquoteCypher(s); unq != n {
+					fail("string literal %q is emitted as %q, which denotes %q", n, text, unq)
+				}
+				continue
+			}
+		default:
+			want = v
+		}
+		if fmt.Sprintf("%T", got) != fmt.Sprintf("%T", want) || got != want {
+			fail("literal %#v (%T) is emitted as %q, which denotes %#v (%T)", v, v, text, got, got)
+		}
+	}
+	res := map[string]any{"name": "builder", "bound": fmt.Sprintf("%d criteria trees of depth <= 2 over And/Or/Xor/Not, 3 comparisons and 3 kind matchers; %d literal values through emit/parse", len(all), len(literalValues)), "cases": cases, "exhaustive": true, "failures": failures}
 	out, _ := json.Marshal(res)
 	fmt.Println("BOUNDED-RESULT " + string(out))
 	if len(failures) > 0 {
